@@ -96,6 +96,21 @@ func SelfSigned(key crypto.Signer, cn string) []*x509.Certificate {
 	return []*x509.Certificate{c}
 }
 
+// Chain makes a two-certificate chain [leaf for key, CA]: the leaf is what an X5CHAIN public key stands for.
+func Chain(key crypto.Signer, cn string) []*x509.Certificate {
+	ca := Key(P256, cn+"-ca")
+	caChain := SelfSigned(ca, cn+" CA")
+	tmpl := &x509.Certificate{SerialNumber: big.NewInt(time.Now().UnixNano()), Subject: pkix.Name{CommonName: cn},
+		NotBefore: time.Now().Add(-time.Hour), NotAfter: time.Now().Add(30 * 365 * 24 * time.Hour),
+		KeyUsage: x509.KeyUsageDigitalSignature}
+	der, err := x509.CreateCertificate(rand.Reader, tmpl, caChain[0], key.Public(), ca)
+	if err != nil {
+		panic(err)
+	}
+	c, _ := x509.ParseCertificate(der)
+	return []*x509.Certificate{c, caChain[0]}
+}
+
 // ---- message hook ----
 
 // Exchange is one observed request/response pair.
@@ -364,10 +379,10 @@ func (e *Env) open(first bool) error {
 	e.DB = db
 	if first {
 		mk, ok := Key(e.Spec, "mfg"), Key(e.Spec, "owner")
-		if err := db.AddManufacturerKey(e.Spec.Type, mk, SelfSigned(mk, "mfg")); err != nil {
+		if err := db.AddManufacturerKey(e.Spec.Type, mk, Chain(mk, "mfg")); err != nil {
 			return err
 		}
-		if err := db.AddOwnerKey(e.Spec.Type, ok, SelfSigned(ok, "owner")); err != nil {
+		if err := db.AddOwnerKey(e.Spec.Type, ok, Chain(ok, "owner")); err != nil {
 			return err
 		}
 		e.devCA = Key(P384, "devca")
